@@ -81,7 +81,8 @@ func TestC11(t *testing.T) {
 		}
 		// a replica whose operator started it with other node-local options: invariants not asserted at
 		// genesis and / or asserted periodically by x/crisis
-		flags := NodeFlags{SkipGenesisInvariants: rapid.Bool().Draw(t, "skipGenesisInvariants"), InvCheckPeriod: uint(rapid.IntRange(0, 3).Draw(t, "invCheckPeriod"))}
+		flags := NodeFlags{SkipGenesisInvariants: rapid.Bool().Draw(t, "skipGenesisInvariants"), InvCheckPeriod: uint(rapid.IntRange(0, 3).Draw(t, "invCheckPeriod")),
+			TimeZone: NodeTimeZones[rapid.IntRange(0, len(NodeTimeZones)-1).Draw(t, "timeZone")]} // ... and on a machine in another time zone
 		if diff := compareTraces(traceA, ReplayAs(d.hist, ReplicaOpts{Flags: flags})); diff != "" {
 			t.Fatalf("a replica started with node-local options %+v diverged from one started with the defaults: %s\nhistory:\n%s", flags, diff, jsonStr(d.log))
 		}
